@@ -698,8 +698,11 @@ def run_stress(kind, seed, churn_s=2.0, producers=3, rt=0.05, pace=(0.003, 0.01,
     threading.excepthook = hook
     dev = TcpDevice(log, True) if kind == "tcp" else PtyDevice(log, tmp)
     out = {"kind": kind, "seed": seed, "errors": errors}
+    old_socket = mgt.socket
     try:
         if kind == "tcp":
+            # the library's own connect call is observed (see check_churn_callbacks)
+            mgt.socket = _Proxy(socket, create_connection=_logged(log, socket.create_connection))
             gw = mgt.TCPGateway("127.0.0.1", port=dev.port, protocol_version="2.2", reconnect_timeout=rt)
         else:
             gw = mgs.SerialGateway(dev.link, protocol_version="2.2", reconnect_timeout=rt, timeout=0.1)
@@ -773,6 +776,7 @@ def run_stress(kind, seed, churn_s=2.0, producers=3, rt=0.05, pace=(0.003, 0.01,
         out["queued"] = dict(counts)
         out["final"] = final
     finally:
+        mgt.socket = old_socket
         threading.excepthook = old_hook
         try:
             dev.close()
@@ -856,6 +860,10 @@ def run_stress_async(kind, seed, churn_s=2.0, producers=3, rt=0.05, pace=(0.003,
         loop_errors.append(repr(ctx.get("exception") or ctx.get("message"))[:160])
 
     loop.set_exception_handler(on_loop_error)
+    if kind == "tcp":
+        # what the library's own connect call returned: an attempt it abandoned (its time-out firing after the kernel had
+        # completed the handshake) is accepted by the device but is not an established connection
+        loop.create_connection = _logged_async(log, loop.create_connection)
     th = threading.Thread(target=loop.run_forever, daemon=True, name="vf-loop")
     th.start()
     out = {"kind": kind, "seed": seed, "errors": [], "loop_errors": loop_errors}
@@ -974,8 +982,17 @@ def check_churn_callbacks(out, flavour):
     acc = sum(1 for e in ev if e[1] == "ACCEPT")
     if made != lost:
         V.append((f"real-churn:lost-count:{'more' if lost > made else 'fewer'}:{tag}", f"{made} connections reported made, {lost} reported lost after stop()"))
-    if out["kind"] == "tcp" and acc != made:
-        V.append((f"real-churn:made-count:{'more' if made > acc else 'fewer'}:{tag}", f"the device accepted {acc} connections, on_conn_made was called {made} times"))
+    # (TCP) made against what was established. The device's accept count is an upper bound only: a connect attempt the
+    # library abandons (its own time-out firing after the kernel completed the handshake - seen on a loaded machine with
+    # reconnect_timeout 0.05 s) is accepted by the device without ever being a connection of the gateway. Where the
+    # library's connect call is observed, every attempt it returned from successfully must have been reported made.
+    established = sum(1 for e in ev if e[1] == "CONNECT-END" and e[2] == "ok")
+    observed = any(e[1] == "CONNECT-BEGIN" for e in ev)
+    out["abandoned_connect_attempts"] = max(0, acc - made)
+    if out["kind"] == "tcp" and made > acc:
+        V.append((f"real-churn:made-count:more:{tag}", f"the device accepted {acc} connections, on_conn_made was called {made} times"))
+    elif out["kind"] == "tcp" and observed and made < established:
+        V.append((f"real-churn:made-count:fewer:{tag}", f"the library's connect call returned {established} connections (the device accepted {acc}), on_conn_made was called {made} times"))
     for e in ev[i_stop + 1:]:
         if e[1] in ("MADE", "LOST", "ACCEPT", "RX"):
             V.append((f"real-churn:activity-after-stop:{e[1]}:{tag}", f"stop() returned at t={ev[i_stop][0]}, then {e[:3]}"))
